@@ -1,28 +1,154 @@
-(** Non-vacuity of the C13 theorems: concrete legal histories, the forest they produce, lookups. *)
-From Coq Require Import NArith List.
+(** Non-vacuity of the C13 theorems: a concrete legal history (the tree of the ACPI specification's
+    search-rule example, built, edited, an object freed and its slot reused), the forest it
+    produces, and lookups on it evaluated with the model and with the reference resolver. *)
+From Coq Require Import NArith ZArith Arith List Bool Lia.
 From FF Require Import Lib.Word Gen.Consts_aml_tree Aml.Stream Aml.Tree Aml.TreeSpec
-                       Aml.TreeProofs Aml.TreeProofsOps.
+                       Aml.TreeProofs Aml.TreeProofsOps Aml.TreeProofsFind Aml.TreeProofsAnc.
 Import ListNotations.
 Local Open Scope N_scope.
 
-Definition nm (a b c d : N) : Name := (a, b, c, d).
-(* \ ; _SB_ ; PCI0 ; IDE0 ; _ADR ; _CRS : the tree of the ACPI specification's search example *)
+Definition nm4 (a b c d : N) : Name := (a, b, c, d).
+(* slots: 0 = \ ; 1 = _SB_ ; 2 = PCI0 ; 3 = IDE0 ; 4 = _ADR ; 5 = _CRS *)
 Definition ex_ops : list op :=
-  [ OpNewNamed opScopeBlock 0 (nm 0x5c 0 0 0);
-    OpNewNamed opScopeBlock 0 (nm 0x5f 0x53 0x42 0x5f);
-    OpNewNamed opScopeBlock 0 (nm 0x50 0x43 0x49 0x30);
-    OpNewNamed opScopeBlock 0 (nm 0x49 0x44 0x45 0x30);
-    OpNewNamed opScopeBlock 0 (nm 0x5f 0x41 0x44 0x52);
-    OpNewNamed opScopeBlock 0 (nm 0x5f 0x43 0x52 0x53);
-    OpAppend 0 1; OpAppend 1 2; OpAppend 2 3; OpAppend 3 4; OpAppendAfter 2 5 3;
-    OpDetach 2 5; OpFree 5; OpNew 0x10 1; OpAppend 2 5 ].
+  [ OpNewNamed opScopeBlock 0 (nm4 0x5c 0 0 0);
+    OpNewNamed opScopeBlock 0 (nm4 0x5f 0x53 0x42 0x5f);
+    OpNewNamed opScopeBlock 0 (nm4 0x50 0x43 0x49 0x30);
+    OpNewNamed opScopeBlock 0 (nm4 0x49 0x44 0x45 0x30);
+    OpNewNamed opScopeBlock 0 (nm4 0x5f 0x41 0x44 0x52);
+    OpNewNamed opScopeBlock 0 (nm4 0x5f 0x43 0x52 0x53);
+    OpAppend 3 4;              (* IDE0 <- _ADR, while IDE0 is still detached *)
+    OpAppend 0 1; OpAppend 1 2;
+    OpAppend 2 3;              (* a whole subtree is attached *)
+    OpNew 0x10 7;              (* slot 6 *)
+    OpAppend 2 6;
+    OpAppendAfter 2 5 3;       (* PCI0: IDE0, _CRS, (6) *)
+    OpDetach 2 6; OpFree 6;
+    OpNewNamed opScopeBlock 0 (nm4 0x5f 0x48 0x49 0x44)   (* reuses slot 6 *) ].
 
-Lemma desc_inv g a x : desc g a x -> x = a \/ exists p, In x (kids g p) /\ desc g a p.
-Proof. destruct 1; eauto. Qed.
+(** decision helpers for the two non-computational side conditions of [legal] *)
+Lemma groot_check g i :
+  forallb (fun l => negb (existsb (N.eqb i) l)) (g_kids g) = true -> groot g i.
+Proof.
+  intros H p Hin. unfold kids in Hin.
+  destruct (Nat.ltb_spec (N.to_nat p) (length (g_kids g))) as [Hlt|Hge].
+  - rewrite forallb_forall in H. specialize (H _ (nth_In _ [] Hlt)).
+    apply negb_true_iff in H. apply existsb_eqb_In in Hin. congruence.
+  - rewrite nth_overflow in Hin by lia. contradiction.
+Qed.
+
+Lemma not_desc_check g a x (S : list N) :
+  existsb (N.eqb a) S = true ->
+  forallb (fun p => forallb (fun c => existsb (N.eqb c) S) (kids g p)) S = true ->
+  existsb (N.eqb x) S = false -> ~ desc g a x.
+Proof.
+  intros Ha Hc Hx Hd. assert (Hin : In x S).
+  { clear Hx. induction Hd as [|p c Hd IH Hk]; [apply existsb_eqb_In; exact Ha|].
+    rewrite forallb_forall in Hc. specialize (Hc _ IH). rewrite forallb_forall in Hc.
+    apply existsb_eqb_In. apply Hc. exact Hk. }
+  apply existsb_eqb_In in Hin. congruence.
+Qed.
+
+Ltac glive_tac := split; [vm_compute; reflexivity | vm_compute; intuition discriminate].
+Ltac new_tac := split; [vm_compute; discriminate | split; [right; vm_compute; reflexivity | intros _; vm_compute; reflexivity]].
+Ltac append_tac S :=
+  split; [glive_tac | split; [glive_tac | split; [apply groot_check; vm_compute; reflexivity |
+     apply (not_desc_check _ _ _ S); vm_compute; reflexivity]]].
 
 Example C13_history_nonvacuous : legal_seq ghost0 ex_ops.
 Proof.
-  cbn [legal_seq ex_ops]. repeat split; cbn; try (intro; discriminate); try lia; auto;
-  try (intros p Hin; destruct p as [|[[[|]|[|]|]|[[|]|[|]|]|]]; cbn in Hin; intuition congruence);
-  try (vm_compute; intuition congruence).
-Abort.
+  unfold ex_ops. cbn [legal_seq].
+  repeat match goal with |- _ /\ _ => split end; cbn [legal]; try exact I.
+  - new_tac. - new_tac. - new_tac. - new_tac. - new_tac. - new_tac.
+  - append_tac [4].
+  - append_tac [1].
+  - append_tac [2].
+  - append_tac [3; 4].
+  - split; [vm_compute; discriminate | split; [left; vm_compute; discriminate | intros _; vm_compute; reflexivity]].
+  - append_tac [6].
+  - split; [glive_tac | split; [glive_tac | split; [apply groot_check; vm_compute; reflexivity |
+      split; [apply (not_desc_check _ _ _ [5]); vm_compute; reflexivity | vm_compute; tauto]]]].
+  - vm_compute; tauto.
+  - split; [glive_tac | vm_compute; reflexivity].
+  - new_tac.
+Qed.
+
+(** the forest after the history: \ -> _SB_ -> PCI0 -> [IDE0 -> _ADR ; _CRS]; slot 6 live again *)
+Example C13_history_forest :
+  arun ghost0 ex_ops = mkGhost [[1]; [2]; [3; 5]; [4]; []; []; []] [].
+Proof. vm_compute. reflexivity. Qed.
+
+(** the theorems apply: the model runs the history without panic and ends in a state related to that forest *)
+Example C13_history_R :
+  exists t', run (@NewObjectTree N) ex_ops = Ok t' /\ R t' (mkGhost [[1]; [2]; [3; 5]; [4]; []; []; []] []).
+Proof.
+  rewrite <- C13_history_forest. apply run_R; [apply R_empty | apply C13_history_nonvacuous].
+Qed.
+
+Definition ex_tree : ObjectTree N :=
+  match run (@NewObjectTree N) ex_ops with Ok t => t | _ => NewObjectTree end.
+
+Example C13_example_links :
+  map (fun o => (o_parent o, o_prev o, o_next o, o_first o, o_last o)) (t_pool ex_tree) =
+  let i := InvalidIndex in
+  [ (i, i, i, 1, 1); (0, i, i, 2, 2); (1, i, i, 3, 5); (2, i, 5, 4, 4); (3, i, i, i, i); (2, 3, i, i, i); (i, i, i, i, i) ].
+Proof. vm_compute. reflexivity. Qed.
+
+Definition bytes_IDE0_ADR : list N := [0x49; 0x44; 0x45; 0x30; 0x5f; 0x41; 0x44; 0x52].
+Definition bytes_CRS : list N := [0x5f; 0x43; 0x52; 0x53].
+
+(** lookups (the cases of the ACPI specification): the model and the reference resolver *)
+Example C13_find_examples :
+  Find ex_tree 2 bytes_IDE0_ADR = Ok 4 /\                       (* IDE0._ADR from PCI0: downward *)
+  Find ex_tree 3 bytes_CRS = Ok 5 /\                            (* _CRS from IDE0: found in the enclosing scope PCI0 *)
+  Find ex_tree 1 bytes_IDE0_ADR = Ok InvalidIndex /\            (* several segments: no upward search *)
+  Find ex_tree 3 ([0x5e; 0x5e] ++ [0x50; 0x43; 0x49; 0x30] ++ bytes_IDE0_ADR) = Ok 4 /\   (* ^^PCI0.IDE0._ADR *)
+  Find ex_tree 3 [0x5e; 0x5e; 0x5e; 0x5e; 0x5e] = Ok InvalidIndex /\                     (* above the root *)
+  Find ex_tree 4 [0x5c] = Ok 0 /\
+  Find ex_tree 4 ([0x5c; 0x2f; 0x03; 0x5f; 0x53; 0x42; 0x5f; 0x50; 0x43; 0x49; 0x30] ++ [0x49; 0x44; 0x45; 0x30]) = Ok 3 /\
+  Find ex_tree 3 [0x46; 0x4f; 0x4f] = Ok InvalidIndex /\        (* too short *)
+  Find ex_tree 3 [] = Ok InvalidIndex.
+Proof. vm_compute. repeat split; reflexivity. Qed.
+
+Example C13_resolve_examples :
+  let g := arun ghost0 ex_ops in let nm := name_at ex_tree in
+  resolve g nm 2 bytes_IDE0_ADR = Some 4 /\ resolve g nm 3 bytes_CRS = Some 5 /\
+  resolve g nm 1 bytes_IDE0_ADR = None /\ resolve g nm 3 [0x5e; 0x5e; 0x5e; 0x5e; 0x5e] = None.
+Proof. vm_compute. repeat split; reflexivity. Qed.
+
+(** the hypotheses of C13_find_spec hold for this tree and every one of its live scopes *)
+Example C13_find_spec_nonvacuous :
+  exists g, R ex_tree g /\ live ex_tree 0 /\ live ex_tree 3 /\ live ex_tree 6.
+Proof.
+  destruct C13_history_R as (t' & Hrun & HR). exists (mkGhost [[1]; [2]; [3; 5]; [4]; []; []; []] []).
+  unfold ex_tree. rewrite Hrun. split; [exact HR|].
+  assert (Ht : t' = ex_tree) by (unfold ex_tree; rewrite Hrun; reflexivity).
+  rewrite Ht. repeat split; eexists; (split; [vm_compute; reflexivity | vm_compute; discriminate]).
+Qed.
+
+(** reuse before grow: after [OpFree 6] the next creation returns slot 6 and the pool keeps 7 slots *)
+Example C13_reuse_example :
+  exists t6 t7, run (@NewObjectTree N) (firstn 15 ex_ops) = Ok t6 /\ t_free t6 = 6 /\
+     newNamedObject t6 opScopeBlock 0 (nm4 0x5f 0x48 0x49 0x44) = Ok (t7, 6) /\
+     length (t_pool t7) = 7%nat /\ t_free t7 = InvalidIndex.
+Proof. eexists _, _. vm_compute. repeat split; reflexivity. Qed.
+
+(** panics are explicit in the model: free of an object that still has children, and a lookup
+    from a freed scope *)
+Example C13_panic_examples :
+  free ex_tree 2 = Panic /\
+  (exists t', free ex_tree 6 = Ok t' /\ Find t' 6 [0x5e] = Panic).
+Proof. split; [vm_compute; reflexivity|]. eexists. split; vm_compute; reflexivity. Qed.
+
+(** ClosestNamedAncestor on the example tree: every object is a named ScopeBlock, so the closest
+    named ancestor of _ADR (slot 4) is IDE0 (slot 3); the root has none *)
+Example C13_closest_example :
+  ClosestNamedAncestor ex_tree (Some 4) = Ok 3 /\ closest_ref ex_tree (arun ghost0 ex_ops) 4 = Some 3 /\
+  ClosestNamedAncestor ex_tree (Some 0) = Ok InvalidIndex /\ ClosestNamedAncestor ex_tree None = Ok InvalidIndex.
+Proof. vm_compute. repeat split; reflexivity. Qed.
+
+Example C13_info_ok_nonvacuous : info_ok ex_tree.
+Proof.
+  intros i o Hg _. unfold get in Hg.
+  assert (Hin : In o (t_pool ex_tree)) by (eapply nth_error_In; eauto).
+  vm_compute in Hin. repeat (destruct Hin as [<-|Hin]; [vm_compute; lia|]). contradiction.
+Qed.
